@@ -6,7 +6,9 @@ package c11
 import (
 	"fmt"
 	"math"
+	"sort"
 
+	"github.com/unixpickle/model3d/model2d"
 	"github.com/unixpickle/model3d/model3d"
 	"pgregory.net/rapid"
 	"verifharness/gen"
@@ -118,6 +120,9 @@ func checkMajority(tris []kit.Tri, d *diag3, m *model3d.Mesh, o *kit.Obs) error 
 	o.Label("majority:checked")
 	res, count := m.RepairNormalsMajority()
 	out := m3.Tris(res)
+	if err := untouched3(m, tris, "RepairNormalsMajority"); err != nil {
+		return err
+	}
 	if len(out) != len(tris) {
 		return fmt.Errorf("RepairNormalsMajority returned %d faces for %d", len(out), len(tris))
 	}
@@ -526,4 +531,50 @@ func checkMaj(c majCase, o *kit.Obs) error {
 		return fmt.Errorf("%w: re-oriented manifold is not orientable by definition", kit.ErrInfra)
 	}
 	return checkMajority(tris, d, m, o)
+}
+
+// untouched3 / untouched2: the repair functions return a new mesh; the mesh they were called on still holds the
+// faces it held, vertex for vertex (a second look at the input, or a second repair of it, is ordinary use).
+func untouched3(m *model3d.Mesh, before []kit.Tri, what string) error {
+	after := m3.Tris(m)
+	key := func(ts []kit.Tri) []string {
+		out := make([]string, len(ts))
+		for i, t := range ts {
+			out[i] = fmt.Sprint(t)
+		}
+		sort.Strings(out)
+		return out
+	}
+	a, b := key(before), key(after)
+	if len(a) != len(b) {
+		return fmt.Errorf("%s changed the mesh it was called on: %d faces before, %d after", what, len(a), len(b))
+	}
+	for i := range a {
+		if a[i] != b[i] {
+			return fmt.Errorf("%s changed the mesh it was called on: it had the face %s, now it has %s", what, a[i], b[i])
+		}
+	}
+	return nil
+}
+
+func untouched2(m *model2d.Mesh, before []kit.Seg, what string) error {
+	after := m3.Segs(m)
+	key := func(ss []kit.Seg) []string {
+		out := make([]string, len(ss))
+		for i, t := range ss {
+			out[i] = fmt.Sprint(t)
+		}
+		sort.Strings(out)
+		return out
+	}
+	a, b := key(before), key(after)
+	if len(a) != len(b) {
+		return fmt.Errorf("%s changed the mesh it was called on: %d segments before, %d after", what, len(a), len(b))
+	}
+	for i := range a {
+		if a[i] != b[i] {
+			return fmt.Errorf("%s changed the mesh it was called on: it had the segment %s, now it has %s", what, a[i], b[i])
+		}
+	}
+	return nil
 }
